@@ -424,6 +424,8 @@ func (c *cluster) judge() {
 						if staleB(f) {
 							fd.mech, fd.key = true, "global-not-above-completed-local:"+mechB
 						}
+					} else if f.o.Skew && g.o.Skew {
+						fd.key += ":skewed-dcs" // local allocators ahead of the global one by different leads
 					}
 					add(fd)
 				}
